@@ -1,7 +1,17 @@
 #!/bin/sh
-# Build every harness crate once, offline, against /repo's current tree.
-set -e
-cd "$(dirname "$0")/../harness"
+# Build every harness crate once, offline, against /repo's current tree.  A crate that does not build
+# does not stop the others (each check rebuilds what it needs and reports a tool error itself).
+cd "$(dirname "$0")/../harness" || exit 1
 cp /repo/Cargo.lock Cargo.lock
 export CARGO_NET_OFFLINE=true
-cargo build --offline --release --workspace 2>&1 | tail -3
+rc=0
+for d in crates/*/; do
+  c=$(basename "$d")
+  [ -f "$d/Cargo.toml" ] || continue
+  if cargo build --offline --release -p "$c" >/tmp/verif-setup-$c.log 2>&1; then
+    echo "[setup] $c ok"
+  else
+    echo "[setup] $c FAILED"; tail -5 /tmp/verif-setup-$c.log
+  fi
+done
+exit 0
